@@ -665,7 +665,9 @@ func (r *Run) runPath(f *Factory, sol *SolverClient, wi workItem) {
 					res.Kind = "panic"
 					res.Msg = ex.panicMsg(p)
 				default:
-					panic(rec)
+					// an engine fault (Go run-time panic inside the interpreter) ends the path as
+					// unsupported with its location; it is never turned into a verdict
+					res.Kind, res.Msg = "unsupported", fmt.Sprintf("ENGINE FAULT: %v%s", rec, ex.where())
 				}
 			}
 		}()
